@@ -347,6 +347,14 @@ func (g *Gen) bid() Op {
 		u = g.userIdx(x.Bidder)
 		cap = x.MaxBidAmount
 	}
+	if p, err := g.e.k.Params.Get(g.e.ctx); err == nil && !p.PlaceBidFee.IsZero() && g.r.P(30) {
+		// a bid fee is in force: let the poor account bid when it may
+		for _, x := range al {
+			if g.userIdx(x.Bidder) == NUsers-1 {
+				u, cap = NUsers-1, x.MaxBidAmount
+			}
+		}
+	}
 	supply := a.GetSellingCoin().Amount
 	sd, pd := fmt.Sprint(denomIdx(a.GetSellingCoin().Denom)), fmt.Sprint(denomIdx(a.GetPayingCoinDenom()))
 	if g.r.P(g.bad()) {
@@ -772,7 +780,7 @@ func (g *Gen) params() Op {
 		auth = g.who(g.r.N(NUsers))
 	}
 	cfee := g.r.Pick("-", "4:100000000", "0:5,4:7", "4:1", "1:2,2:3")
-	bfee := g.r.Pick("-", "-", "4:10", "1:3", "0:1,4:2")
+	bfee := g.r.Pick("-", "-", "4:10", "1:3", "0:1,4:2", "4:2000", "3:1500") // the last two: more than the poor account holds
 	if g.r.P(g.bad() + 3) {
 		cfee = g.r.Pick("4:7,0:5", "0:5,0:6", "0:0", "!:5", "0:nil")
 	}
